@@ -291,7 +291,7 @@ pub fn run_c12(tier: &str, only: Option<String>) -> i32 {
             }
         }
     }
-    let stats = par_items(&items, Some(60_000), &|_| {}, &|it: &C12Item, st: &mut Stats| c12_case(&u, it, st));
+    let stats = par_items(&items, Some(bridge::rt::hang_limit()), &|_| {}, &|it: &C12Item, st: &mut Stats| c12_case(&u, it, st));
     run.stats = stats;
     if run.only.is_none() {
         let mut st = Stats::default();
@@ -516,8 +516,7 @@ pub fn run_c16(tier: &str, only: Option<String>) -> i32 {
         .filter(|it| run.selected(&format!("c16:{}", it.idx)))
         .collect();
     let frames = std::sync::Mutex::new(Vec::new());
-    let stats = par_items(&items, Some(300_000), &|it: &C16Item| {
-        println!("VIOLATION property=C16 replay=/verif/replays/C16-hang.json");
+    let stats = par_items(&items, Some(bridge::rt::hang_limit()), &|it: &C16Item| {
         println!("  hang on content {} (len {})", it.idx, it.d.len());
     }, &|it: &C16Item, st: &mut Stats| c16_case(it, st, thorough, &frames));
     run.stats = stats;
@@ -579,7 +578,7 @@ pub fn run_c17(tier: &str, only: Option<String>) -> i32 {
     // (1) every Unicode scalar value
     let ce = u.get("char");
     let shards: Vec<u32> = (0..=0x10).collect();
-    let cs = par_items(&shards, Some(60_000), &|_| {}, &|plane: &u32, st: &mut Stats| {
+    let cs = par_items(&shards, Some(bridge::rt::hang_limit()), &|_| {}, &|plane: &u32, st: &mut Stats| {
         for c in (plane << 16)..((plane + 1) << 16) {
             if char::from_u32(c).is_none() {
                 continue;
@@ -701,7 +700,7 @@ pub fn run_c17(tier: &str, only: Option<String>) -> i32 {
     }
     // (4) every value of every type of the universe encodes to Ok or to the documented error
     let its = crate::p_values::items(&u, &run, &|_e: &Entry| true);
-    let vs = par_items(&its, Some(60_000), &|_| {}, &|it: &crate::p_values::Item, st: &mut Stats| {
+    let vs = par_items(&its, Some(bridge::rt::hang_limit()), &|_| {}, &|it: &crate::p_values::Item, st: &mut Stats| {
         for (i, v) in &it.vals {
             st.states += 1;
             let rs = (it.e.enc)(v, &[Sink::ToByteVec, Sink::ToBytes]);
